@@ -13,41 +13,32 @@ Open Scope Z_scope.
 (* the handler is over within the explicit fuel bound [fuel_for c] = pending bytes + pending
    segments + 4: it returned, or panicked and was recovered by server.handle *)
 Definition finishes (s : scn) (c : conn) : Prop := finished (h_out (handle s (fuel_for c) c)) = true.
-(* nothing it created stays for good: whatever is still held when Handle is over sits on a
-   timer of its own (and if Handle returned normally nothing is held at all) *)
+(* it holds nothing when Handle is over - returned, or panicked and recovered *)
 Definition releases (s : scn) (c : conn) : Prop :=
-  kept (handle s (fuel_for c) c) = res0 /\
-  (h_out (handle s (fuel_for c) c) = Returned -> h_res (handle s (fuel_for c) c) = res0).
+  h_res (handle s (fuel_for c) c) = res0 /\ kept (handle s (fuel_for c) c) = res0.
 (* N sequential connections leave the process as it was, for all N and all mixes *)
-Definition flat (s : scn) : Prop := forall cs, Forall (covered s) cs -> history s cs = res0.
+Definition flat (s : scn) : Prop := forall cs, Forall (in_fragment s) cs -> history s cs = res0.
 
 (* [in_fragment s c]: the dialogue stays inside the modelled command set of ftp / smtp
-   (trivially true for the six other services, see C09_fragment_other_services);
-   [panic_keeps_data_conn s c]: the one defect class left in the unchanged code - an ftp session
-   that ends in a recovered panic while it holds an ACCEPTED passive data connection (ftp's own
-   Conn.Close() is not reached); [covered] = inside the fragment and outside that class *)
+   (trivially true for the six other services, see C09_fragment_other_services) *)
 Definition C09_full : Prop :=
-  (forall s c, in_fragment s c -> finishes s c) /\
-  (forall s c, covered s c -> releases s c) /\ (forall s, flat s).
+  (forall s c, in_fragment s c -> finishes s c /\ releases s c) /\ (forall s, flat s).
 
 Theorem C09_terminates : forall s c, in_fragment s c -> finishes s c.
 Proof. exact handle_ends. Qed.
 
-Theorem C09_released : forall s c, covered s c -> releases s c.
-Proof. intros s c [H Hn]; split; [apply handle_kept; assumption|apply handle_returned_clean]. Qed.
-
-(* the class is real (refutation of the unrestricted statement) and costs exactly one descriptor
-   per such session; the proposed repair is a deferred ftpConn.Close() in ftp's Handle *)
-Theorem C09_released_ftp_panic_refuted : forall s c,
-  panic_keeps_data_conn s c -> kept (handle s (fuel_for c) c) = mkRes 0 0 1.
-Proof. exact panic_keeps_one. Qed.
+Theorem C09_released : forall s c, in_fragment s c -> releases s c.
+Proof.
+  intros s c H; split; [apply handle_finished_clean, handle_ends; exact H|apply handle_kept; exact H].
+Qed.
 
 Theorem C09_history_flat_all : forall s, flat s.
 Proof. intros s cs; apply history_zero. Qed.
 
 Theorem C09_full_holds : C09_full.
 Proof.
-  split; [exact C09_terminates|]. split; [exact C09_released|exact C09_history_flat_all].
+  split; [|exact C09_history_flat_all].
+  intros s c H; split; [apply C09_terminates|apply C09_released]; exact H.
 Qed.
 
 (* ---- what is behind it, service by service ---- *)
@@ -157,8 +148,7 @@ Proof. exact ipp_groups_ends. Qed.
    socket (Accept goroutine + listener), which is on its 30 s Accept deadline *)
 Theorem C09_released_ftp : forall v6 dial fuel c,
   let h := handle_ftp v6 dial fuel c in
-  (h_out h = Returned -> h_res h = res0 /\ h_late h = res0) /\
-  (h_out h = Panicked -> kept h = ftp_panic_kept (ftp_final_data v6 dial fuel c)).
+  finished (h_out h) = true -> h_res h = res0 /\ h_late h = res0.
 Proof. exact handle_ftp_res. Qed.
 
 (* every other service holds nothing when Handle is over, for any fuel and connection *)
@@ -171,7 +161,7 @@ Theorem C09_history_additive : forall s a b, history s (a ++ b) = res_add (histo
 Proof. exact history_app. Qed.
 
 (* N connections of the same kind: slope 0, for all N *)
-Theorem C09_history_flat : forall s c n, covered s c -> history s (repeat c n) = res0.
+Theorem C09_history_flat : forall s c n, in_fragment s c -> history s (repeat c n) = res0.
 Proof. exact history_repeat_zero. Qed.
 
 (* ---- vnc update-request queue (the service itself is only observed, part "sweep") ---- *)
@@ -217,11 +207,12 @@ Example C09_ftp_replaced_sockets_released :
   m_timeouts (c_m (h_conn h)) = 1%N.
 Proof. split; [unfold in_fragment; vm_compute; discriminate|vm_compute; repeat split; reflexivity]. Qed.
 
-(* PASV on an IPv6 local address: recovered panic, the socket is left to its Accept deadline *)
+(* PASV on an IPv6 local address: recovered panic; the socket opened just before is closed by the
+   deferred Close (before c799f65 it was left to its 30 s Accept deadline) *)
 Example C09_ftp_ipv6_pasv_panic :
   let c := mkConn [str_USER; str_PASS; str_PASV] TEof m0 in
   let h := handle (mkScn Ftp false true DialNone) (fuel_for c) c in
-  h_out h = Panicked /\ h_res h = mkRes 1 1 1 /\ kept h = res0.
+  h_out h = Panicked /\ h_res h = res0.
 Proof. vm_compute. repeat split; reflexivity. Qed.
 
 (* datagrams (the consumed datagram ends the stream): ntp, echo, adb CNXN, memcached store
@@ -274,27 +265,20 @@ Example C09_memcached_three_deadlines :
   h_out h = Returned /\ m_timeouts (c_m (h_conn h)) = 3%N.
 Proof. vm_compute. split; reflexivity. Qed.
 
-(* sessions that end in a recovered panic: smtp BDAT without a chunk size and ftp PORT with two
-   fields release everything; after PASV + a client that connected, PORT 1,2 keeps the accepted
-   data connection (the defect class); each is replayed on the implementation by the corpus *)
+(* sessions that end in a recovered panic release everything: smtp BDAT without a chunk size,
+   ftp PORT with two fields, and - the regression witness of c799f65 - PORT 1,2 after PASV and a
+   client that connected (the accepted data connection used to stay); replayed by the corpus *)
 Example C09_recovered_panics :
   let port12 := [80;79;82;84;32;49;44;50;13;10]%N in
   let smtp_c := mkConn [[72;69;76;79;32;120;13;10]%N; [77;65;73;76;32;70;82;79;77;58;60;97;64;98;62;13;10]%N; [66;68;65;84;13;10]%N] TEof m0 in
   let ftp_c := mkConn [str_USER; str_PASS; port12] TEof m0 in
   let ftp_k := mkConn [str_USER; str_PASS; str_PASV; port12] TEof m0 in
-  h_out (handle (mkScn Smtp false false DialNone) (fuel_for smtp_c) smtp_c) = Panicked /\
-  covered (mkScn Smtp false false DialNone) smtp_c /\
-  h_out (handle (mkScn Ftp false false DialNone) (fuel_for ftp_c) ftp_c) = Panicked /\
-  covered (mkScn Ftp false false DialNone) ftp_c /\
-  panic_keeps_data_conn (mkScn Ftp false false DialKnock) ftp_k /\
-  kept (handle (mkScn Ftp false false DialKnock) (fuel_for ftp_k) ftp_k) = mkRes 0 0 1.
-Proof.
-  cbv zeta. unfold covered, in_fragment, panic_keeps_data_conn.
-  split; [vm_compute; reflexivity|]. split; [split; [vm_compute; discriminate|intros (H & _); vm_compute in H; discriminate]|].
-  split; [vm_compute; reflexivity|].
-  split; [split; [vm_compute; discriminate|intros (_ & _ & H); vm_compute in H; discriminate]|].
-  split; [repeat split; vm_compute; reflexivity|vm_compute; reflexivity].
-Qed.
+  let run s c := let h := handle s (fuel_for c) c in (h_out h, h_res h) in
+  run (mkScn Smtp false false DialNone) smtp_c = (Panicked, res0) /\
+  run (mkScn Ftp false false DialNone) ftp_c = (Panicked, res0) /\
+  run (mkScn Ftp false false DialKnock) ftp_k = (Panicked, res0) /\
+  run (mkScn Ftp false false DialNone) ftp_k = (Panicked, res0).
+Proof. vm_compute. repeat split; reflexivity. Qed.
 
 (* ipp bodies (after the 8-byte header) that end exactly at a group boundary: one group tag and
    nothing else; an empty body; a complete one.  The value decoder here skips a 2-byte value. *)
@@ -315,7 +299,6 @@ Proof. unfold in_fragment; split; vm_compute; [discriminate|intros H; apply H; r
 
 Print Assumptions C09_terminates.
 Print Assumptions C09_released.
-Print Assumptions C09_released_ftp_panic_refuted.
 Print Assumptions C09_history_flat_all.
 Print Assumptions C09_full_holds.
 Print Assumptions C09_fragment_other_services.
